@@ -72,6 +72,44 @@ CLAIMED = {
         "'Skipped with a warning' is observed at verbosity >= 2; '//' inside #include text is exercised in -I "
         "directories and command-line spellings instead (undefined in C).",
         "DESIGN.md §C17"),
+    "C07": (
+        "TLA+ specs ConstExpr/ConstExprGen (integer constant expressions built token by token, C++ int evaluation with "
+        "Defined-ness, precedence-driven minimal rendering), NumLex (literal spellings) and ConstExprEnv (enumerators, "
+        "const/constexpr variables, macros, arrays); TLC exhaustive + simulation; every expression replayed as "
+        "enumerator, #define, array bound and #if through interrogate and read back from the database; g++ validates "
+        "the spec's value on every constant",
+        "TLC enumerates all expressions up to the depth bound over 22 operators, 3 casts and ?: with boundary leaves, "
+        "checks evaluation laws on the model, and the recorded values are compared with Eval for every one; what "
+        "interrogate cannot evaluate must be reported unevaluated, never a wrong number.",
+        "Trusted: TLC, g++ -std=c++20 as the authority for every constant (spec != g++ is exit 2), vf/constexpr.py "
+        "(Python mirror of the spec, compared with TLC on every dumped record). Unsigned-suffix literals only stand "
+        "alone; out-of-range narrowing casts are outside the domain.",
+        "DESIGN.md §C07"),
+    "C11": (
+        "TLA+ spec IdbDB/Idb (records, index space, remap_indices as a bijection commuting with every reference, "
+        "Closed / WrappersFirst / LinksConsistent / UniqueNames invariants), TLC exhaustive; every real database "
+        "produced by interrogate over a header x back-end x naming-option matrix dumped by raw index and evaluated "
+        "against the same invariants by TLC (IdbState); extern-C redeclarations synthesised from the database alone "
+        "compiled in one TU with the generated -c code",
+        "The invariants are preserved by every modelled action for all small databases, and hold on each of the 558 "
+        "real databases of the quick tier; the code/database agreement is decided by g++ (a signature mismatch is a "
+        "compile error) and nm.",
+        "Trusted: TLC, g++ (-fpermissive for the extern/static mismatch that belongs to C03), the raw-index dumper "
+        "harness/idbm_tool.cxx. Builder-side actions are not modelled; the real producer is covered by the database "
+        "sweep.",
+        "DESIGN.md §C11"),
+    "C13": (
+        "TLA+ spec Idb (request_module, lazy load_latest, read_new, remap_indices, merge_from/merge_with, lookup "
+        "caches with _lookups_fresh; reference Union), TLC exhaustive over library contents, load orders and "
+        "request/query interleavings; Apalache inductive invariant for index-range allocation (IdbAlloc); complete "
+        "behaviours replayed step by step through libinterrogatedb in fresh processes; H-idb hook traces validated "
+        "against IdbTrace; real multi-library sets loaded in every permutation",
+        "For every interleaving and order within the bound the projected database equals the disjoint union modulo "
+        "true names, ranges are disjoint and caches coherent (TLC); the library follows the model at every step of "
+        "4 800 replayed behaviours and on every observed load/merge event.",
+        "Trusted: TLC, Apalache (IdbAlloc only), the text-format writer in vf/checks/_idbm.py, harness/idbm_tool.cxx "
+        "(built with -fno-access-control to read raw state).",
+        "DESIGN.md §C13"),
 }
 
 NOT_APPLICABLE = {
